@@ -687,8 +687,248 @@ def has_strings(e):
     return r
 
 
+class Collected:
+    """What one FOREACH loop appended to a list that existed before the loop (the COLLECT rule): for the arbitrary iteration ``k`` of
+    ``seq`` (on this path), ``items`` in order -- values, or nested ``Collected`` chunks appended by inner loops.  The list is the
+    concatenation of these items over k = 0 .. len(seq) - 1."""
+    _pyvc_model_class = True
+
+    def __init__(self, seq, k, items):
+        self.seq, self.k, self.items = seq, k, items
+
+    def leaves(self):
+        """[(frames, value)] with frames = ((seq, k), ...) outermost first"""
+        out = []
+        for x in self.items:
+            if isinstance(x, Collected):
+                out += [(((self.seq, self.k),) + fr, v) for fr, v in x.leaves()]
+            else:
+                out.append((((self.seq, self.k),), x))
+        return out
+
+
+class SortedView:
+    """sorted(collected list, key=..., reverse=...): a permutation of the collected elements, ascending (descending) by key, ties in
+    the original order (PY-SORTED).  ``keys`` = the key of every generic element, parallel to ``collected_leaves(source)``."""
+    _pyvc_model_class = True
+
+    def __init__(self, source, keys, reverse, has_key):
+        self.source, self.keys, self.reverse, self.has_key = source, keys, reverse, has_key
+
+
+class ForeachFrame:
+    def __init__(self, start_clock):
+        self.start_clock = start_clock
+        self.collected = {}         # id(list) -> (list, [items])
+
+    def collect(self, lst, item):
+        if lst._coll is None:
+            lst._coll = []
+        self.collected.setdefault(id(lst), (lst, []))[1].append(item)
+
+
+def _clock():
+    return CTX.clock if CTX is not None else 0
+
+
+def foreach_guard(born, what):
+    """FOREACH frame condition: the body of a loop decided at one arbitrary iteration must not modify state that outlives the iteration."""
+    c = CTX
+    if c is not None and c.foreach_stack and born < c.foreach_stack[-1].start_clock:
+        raise Unsupported(f'{what} inside a loop over a sequence of symbolic length (state from outside the loop: needs an invariant)')
+
+
+class TList(list):
+    """python list created by the code under contract: knows when it was created and whether a FOREACH loop appended to it"""
+    __slots__ = ('_born', '_coll')
+
+    def __init__(self, *a):
+        list.__init__(self, *a)
+        self._born = _clock()
+        self._coll = None
+
+    def _r(self):
+        if self._coll is not None:
+            raise Unsupported('use of a list that a loop over a symbolic sequence appended to (only sorted() is modelled)')
+
+    def _w(self, op):
+        self._r()
+        foreach_guard(self._born, f'list.{op}')
+
+    def append(self, x):
+        c = CTX
+        if c is not None and c.foreach_stack and self._born < c.foreach_stack[-1].start_clock:
+            c.foreach_stack[-1].collect(self, x)
+            return
+        self._r()
+        list.append(self, x)
+
+    def __iter__(self):
+        self._r()
+        return list.__iter__(self)
+
+    def __len__(self):
+        self._r()
+        return list.__len__(self)
+
+    def __getitem__(self, i):
+        self._r()
+        r = list.__getitem__(self, i)
+        return TList(r) if isinstance(i, slice) else r
+
+    def __contains__(self, x):
+        self._r()
+        return list.__contains__(self, x)
+
+    def __eq__(self, o):
+        self._r()
+        return list.__eq__(self, o)
+
+    def __ne__(self, o):
+        self._r()
+        return list.__ne__(self, o)
+
+    __hash__ = None
+
+    def __add__(self, o):
+        self._r()
+        if isinstance(o, TList):
+            o._r()
+        r = list.__add__(self, o)
+        return TList(r) if r is not NotImplemented else r
+
+    def __radd__(self, o):
+        self._r()
+        return TList(list(o) + list.__getitem__(self, slice(None)))
+
+    def __mul__(self, n):
+        self._r()
+        return TList(list.__mul__(self, n))
+
+    __rmul__ = __mul__
+
+    def __reversed__(self):
+        self._r()
+        return list.__reversed__(self)
+
+    def index(self, *a):
+        self._r()
+        return list.index(self, *a)
+
+    def count(self, x):
+        self._r()
+        return list.count(self, x)
+
+    def copy(self):
+        self._r()
+        return TList(list.copy(self))
+
+    def extend(self, it):
+        self._w('extend')
+        list.extend(self, it)
+
+    def insert(self, i, x):
+        self._w('insert')
+        list.insert(self, i, x)
+
+    def pop(self, *a):
+        self._w('pop')
+        return list.pop(self, *a)
+
+    def remove(self, x):
+        self._w('remove')
+        list.remove(self, x)
+
+    def clear(self):
+        self._w('clear')
+        list.clear(self)
+
+    def sort(self, **kw):
+        self._w('sort')
+        list.sort(self, **kw)
+
+    def reverse(self):
+        self._w('reverse')
+        list.reverse(self)
+
+    def __setitem__(self, i, v):
+        self._w('__setitem__')
+        list.__setitem__(self, i, v)
+
+    def __delitem__(self, i):
+        self._w('__delitem__')
+        list.__delitem__(self, i)
+
+    def __iadd__(self, o):
+        self._w('+=')
+        list.extend(self, o)
+        return self
+
+    def __imul__(self, n):
+        self._w('*=')
+        return list.__imul__(self, n)
+
+
+class TDict(dict):
+    """python dict created by the code under contract (creation time for the FOREACH frame condition)"""
+    __slots__ = ('_born',)
+
+    def __init__(self, *a, **kw):
+        dict.__init__(self, *a, **kw)
+        self._born = _clock()
+
+    def _w(self, op):
+        foreach_guard(self._born, f'dict.{op}')
+
+    def __setitem__(self, k, v):
+        self._w('__setitem__')
+        dict.__setitem__(self, k, v)
+
+    def __delitem__(self, k):
+        self._w('__delitem__')
+        dict.__delitem__(self, k)
+
+    def update(self, *a, **kw):
+        self._w('update')
+        dict.update(self, *a, **kw)
+
+    def pop(self, *a):
+        self._w('pop')
+        return dict.pop(self, *a)
+
+    def popitem(self):
+        self._w('popitem')
+        return dict.popitem(self)
+
+    def setdefault(self, k, d=None):
+        if k not in self:
+            self._w('setdefault')
+        return dict.setdefault(self, k, d)
+
+    def clear(self):
+        self._w('clear')
+        dict.clear(self)
+
+    def copy(self):
+        return TDict(dict.copy(self))
+
+    def __ior__(self, o):
+        self._w('|=')
+        dict.update(self, o)
+        return self
+
+
+def collected_chunks(lst):
+    """the chunks FOREACH loops appended to ``lst`` ([] for an ordinary list), and its concrete prefix"""
+    if isinstance(lst, TList) and lst._coll is not None:
+        return list(lst._coll), list.__getitem__(lst, slice(None))
+    return [], list(lst)
+
+
 class Ctx:
     def __init__(self, prefix=(), check_feasible=True, rlimit=20_000_000):
+        self.clock = 0                   # allocation clock: advanced at every FOREACH frame
+        self.foreach_stack = []
         self.prefix = list(prefix)
         self.trail: list[bool] = []
         self.free: list[bool] = []       # was decision i a free choice?
